@@ -116,13 +116,16 @@ def install_spec(I: Interp, f):
                 return SymInt(app)
         ts = [I.lift(a) for a in allargs]
         sorts = [V] * len(ts)
+        uname = name
+        if I.spec_depth > 0:            # nested occurrence inside an unfolding: may be read as another function (lemmas over a definition)
+            uname = getattr(I, "spec_alias", {}).get(name, name)
         if not meta["total"]:
-            ok = fn(f"{name}_ok", *sorts, Bool)(*ts)
+            ok = fn(f"{uname}_ok", *sorts, Bool)(*ts)
             if not I.decide(ok):
-                raise PyRaise(SymExc(None, (), term=fn(f"{name}_exc", *sorts, V)(*ts), origin=f"spec {name}"))
+                raise PyRaise(SymExc(None, (), term=fn(f"{uname}_exc", *sorts, V)(*ts), origin=f"spec {uname}"))
         r = meta["returns"]
         if r == "v":
-            return SymV(fn(f"{name}_v", *sorts, V)(*ts))
+            return SymV(fn(f"{uname}_v", *sorts, V)(*ts))
         if r == "int":
             return SymInt(fn(f"{name}_i", *sorts, Int)(*ts))
         if r == "nat":
@@ -655,6 +658,11 @@ def verify_function(fc: FunctionContract, specs, rlimit=20_000_000, hooks=None):
             install_assumed(I, loader.unwrap(loader.resolve(tpath)), cfn)
         if fc.setup:
             fc.setup(I, inputs)
+            # what setup installed (fields, attributes) is part of the initial state of every path
+            for v in inputs:
+                if isinstance(v, (SymObj, SymDict, PyList, PyDict, SymSet, SymNode)):
+                    I.tracked = [t for t in I.tracked if t[0] is not v]
+                    I.track(v)
         spec_inputs = list(inputs)
         if star is not None:
             spec_inputs.append(SymSeq(star, "tuple"))
